@@ -199,7 +199,9 @@ func TestExhaustive(t *testing.T) {
 	}
 }
 
-var lookalikes = []string{"--- old", "+++ new", "@@ -1,2 +3,4 @@", `\ No newline at end of file`, "+x", "-x", " x", "diff old new", "", "}", "{", "x", "\\", "@@", "\r", "a\r", "\xff\xfe"}
+var lookalikes = []string{"--- old", "+++ new", "@@ -1,2 +3,4 @@", `\ No newline at end of file`, "+x", "-x", " x", "diff old new", "", "}", "{", "x", "\\", "@@", "\r", "a\r", "\xff\xfe",
+	// text that means something to a formatting routine
+	"100%", "%d items", "%%", "%s", "%!d(MISSING)", "50% of %v"}
 
 func genLines(t *rapid.T, n int, label string) []string {
 	ls := make([]string, n)
